@@ -33,7 +33,8 @@ CONSTANTS F1, F2, NV,
           MaxMerges,       \* merge commits per behaviour (bounds the exhaustive model)
           EditRounds,      \* edits are enabled while fewer than EditRounds merge commits were made
           D, RecordHist,
-          FocusOnly,       \* generator: only the triples of Focus (convergent edit next to a one-sided block edit)
+          FocusOnly,       \* generator ("none" = all): "block" = only the triples of Focus (convergent edit next to a one-sided block edit),
+                           \* "tail" = only the triples of TailFocus (right truncates the map, left appends past the end)
           Shard, NShards
 
 VARIABLES base, left, right, pol, nl, nr, nm, hist
@@ -242,8 +243,22 @@ Focus(b, l, r) == \E k \in BlockKeys, k2 \in PointKeys :
                      /\ Adjacent(k, k2)
                      /\ ((l[k] = b[k] /\ r[k] # b[k]) \/ (r[k] = b[k] /\ l[k] # b[k]))
                      /\ l[k2] = r[k2] /\ l[k2] # b[k2]
+\* ... or one side alone edits the block key while the other side alone edits the point key next to it (when that point
+\* key ends a chunk, a range patch of one side ends exactly at the point patch of the other side)
+EdgeFocus(b, l, r) == \E k \in BlockKeys, k2 \in PointKeys :
+                         /\ Adjacent(k, k2)
+                         /\ ((l[k] = b[k] /\ r[k] # b[k] /\ l[k2] # b[k2] /\ r[k2] = b[k2])
+                             \/ (r[k] = b[k] /\ l[k] # b[k] /\ r[k2] # b[k2] /\ l[k2] = b[k2]))
+\* tail triples: the right side truncates the map (deletes every row from some cut key on, nothing else), the left side
+\* leaves the deleted rows alone and has a row after the right side's new last row (it appended past the old end)
+LastKeyOf(m) == LET ks == SortKeys({k \in Key : m[k] # 0}) IN IF ks = <<>> THEN <<>> ELSE ks[Len(ks)]
+TailFocus(b, l, r) == /\ r # b
+                      /\ \E cut \in Key : \A k \in Key : r[k] = (IF KLeq(cut, k) THEN 0 ELSE b[k])
+                      /\ \A k \in Key : (b[k] # 0 /\ r[k] = 0) => l[k] = b[k]
+                      /\ \E k \in Key : l[k] # 0 /\ b[k] = 0 /\ (IF LastKeyOf(r) = <<>> THEN TRUE ELSE KLess(LastKeyOf(r), k))
 GenInit == /\ base \in BaseMaps /\ left \in Near(base) /\ right \in Near(base)
-           /\ (FocusOnly => Focus(base, left, right))
+           /\ (FocusOnly = "block" => (Focus(base, left, right) \/ EdgeFocus(base, left, right)))
+           /\ (FocusOnly = "tail" => TailFocus(base, left, right))
            /\ (No(left) + 3 * No(right) + 5 * No(base)) % NShards = Shard
            /\ pol \in (IF CollisionKeys(base, left, right) = {} THEN {CHOOSE p \in Policies : TRUE} ELSE Policies)
            /\ nl = Hamming(left, base) /\ nr = Hamming(right, base) /\ nm = 0
